@@ -7,6 +7,7 @@
 -/
 import Mathlib.Tactic
 import UmapModel.Api
+import UmapModel.Graph
 import Generated.KnnDecision
 
 namespace Umap
@@ -88,6 +89,125 @@ theorem live_table_agrees :
 
 /-- non-vacuity: the table is not empty and contains a pruned small-data case. -/
 example : Generated.knnDecisionTable.length ≥ 12 := by decide +kernel
+
+/-! ### the table that is actually used, and the graph computed from it -/
+
+open Graph in
+/-- the part of a supplied kNN table (`knn_indices` or `knn_dists`) that the graph stage reads:
+    its first `c` columns when the decision is `.use c _`.  (For `.ignore` the table is not
+    consulted at all — the kNN is recomputed — and `usedTable` returns it unchanged; only the
+    `.use` case is used below.) -/
+def usedTable {β : Type} (d : KnnDecision) (tbl : List (List β)) : List (List β) :=
+  match d with
+  | .use c _ => takeCols c tbl
+  | .ignore => tbl
+
+/-- a table with at least `n_neighbors` columns and the right number of rows is used, with
+    exactly `n_neighbors` columns. -/
+theorem decision_use (cols k rows n : Nat) (force : Bool) (hk : k ≤ cols) (hr : rows = n) :
+    ∃ f, validatePrecomputedKnn false cols k rows n force = .use k f := by
+  cases hd : validatePrecomputedKnn false cols k rows n force with
+  | ignore =>
+    rcases (ignore_iff cols k rows n force).1 hd with h | h
+    · omega
+    · exact absurd hr h
+  | use c f =>
+    have := prune_always cols k rows n force c f hd
+    subst this
+    exact ⟨f, rfl⟩
+
+open Graph in
+/-- **used_table**: the table read by the graph stage is the first `k` columns of the supplied
+    one. -/
+theorem used_table {β : Type} (cols k rows n : Nat) (force : Bool) (hk : k ≤ cols) (hr : rows = n)
+    (tbl : List (List β)) :
+    usedTable (validatePrecomputedKnn false cols k rows n force) tbl = takeCols k tbl := by
+  obtain ⟨f, hf⟩ := decision_use cols k rows n force hk hr
+  rw [hf]; rfl
+
+open Graph in
+theorem takeCols_takeCols {β : Type} (k c : Nat) (hk : k ≤ c) (t : List (List β)) :
+    takeCols k (takeCols c t) = takeCols k t := by
+  unfold takeCols
+  rw [List.map_map]
+  apply List.map_congr_left
+  intro row _
+  simp only [Function.comp, List.take_take, Nat.min_eq_left hk]
+
+open Graph in
+/-- pruning is idempotent. -/
+theorem takeCols_idem {β : Type} (k : Nat) (t : List (List β)) :
+    takeCols k (takeCols k t) = takeCols k t := takeCols_takeCols k k (le_refl k) t
+
+open Graph in
+/-- pruning a table that has at most `k` columns does nothing. -/
+theorem takeCols_of_le {β : Type} (k : Nat) (t : List (List β)) (h : ∀ row ∈ t, row.length ≤ k) :
+    takeCols k t = t := by
+  unfold takeCols
+  conv_rhs => rw [← List.map_id t]
+  apply List.map_congr_left
+  intro row hrow
+  exact List.take_of_length_le (h row hrow)
+
+section
+open Graph
+variable {α : Type} [Add α] [Sub α] [Mul α] [Div α] [Neg α] [LT α] [LE α]
+  [DecidableLT α] [DecidableLE α] [OfNat α 0] [OfNat α 1] [NatCast α]
+
+/--
+  **graph_depends_on_prefix.**  For `k = n_neighbors ≤ cols` (and the right number of rows) the
+  graph computed from the table selected by `_validate_parameters` out of a supplied
+  `cols`-column `precomputed_knn` is the graph computed from its first `k` columns — for every
+  scalar type (so at `Float` and at `ℝ` alike), every parameter setting, every table.
+-/
+theorem graph_depends_on_prefix (T : Transc α) (tol minScale target : α) (lcIdx : Nat) (lcFrac : α)
+    (nIter : Nat) (r : α) (cols k rows n : Nat) (force : Bool) (hk : k ≤ cols) (hr : rows = n)
+    (idx : List (List (Option Nat))) (ds : List (List (Option α))) :
+    graphOfKnn T tol minScale target lcIdx lcFrac nIter r
+        (usedTable (validatePrecomputedKnn false cols k rows n force) idx)
+        (usedTable (validatePrecomputedKnn false cols k rows n force) ds)
+      = graphOfKnn T tol minScale target lcIdx lcFrac nIter r (takeCols k idx) (takeCols k ds) := by
+  rw [used_table cols k rows n force hk hr, used_table cols k rows n force hk hr]
+
+/-- hence two supplied tables (possibly of different widths `cols`, `cols'`) that agree on their
+    first `k` columns give the same graph: the columns beyond `n_neighbors` are never read. -/
+theorem graph_eq_of_prefix_eq (T : Transc α) (tol minScale target : α) (lcIdx : Nat) (lcFrac : α)
+    (nIter : Nat) (r : α) (cols cols' k rows n : Nat) (force force' : Bool)
+    (hk : k ≤ cols) (hk' : k ≤ cols') (hr : rows = n)
+    (idx idx' : List (List (Option Nat))) (ds ds' : List (List (Option α)))
+    (hi : takeCols k idx = takeCols k idx') (hd : takeCols k ds = takeCols k ds') :
+    graphOfKnn T tol minScale target lcIdx lcFrac nIter r
+        (usedTable (validatePrecomputedKnn false cols k rows n force) idx)
+        (usedTable (validatePrecomputedKnn false cols k rows n force) ds)
+      = graphOfKnn T tol minScale target lcIdx lcFrac nIter r
+        (usedTable (validatePrecomputedKnn false cols' k rows n force') idx')
+        (usedTable (validatePrecomputedKnn false cols' k rows n force') ds') := by
+  rw [graph_depends_on_prefix T tol minScale target lcIdx lcFrac nIter r cols k rows n force hk hr,
+    graph_depends_on_prefix T tol minScale target lcIdx lcFrac nIter r cols' k rows n force' hk' hr,
+    hi, hd]
+
+/-- supplying the already-pruned table (`k` columns) is the same as supplying the wide one. -/
+theorem graph_pruned_same (T : Transc α) (tol minScale target : α) (lcIdx : Nat) (lcFrac : α)
+    (nIter : Nat) (r : α) (cols k rows n : Nat) (force : Bool) (hk : k ≤ cols) (hr : rows = n)
+    (idx : List (List (Option Nat))) (ds : List (List (Option α))) :
+    graphOfKnn T tol minScale target lcIdx lcFrac nIter r
+        (usedTable (validatePrecomputedKnn false cols k rows n force) idx)
+        (usedTable (validatePrecomputedKnn false cols k rows n force) ds)
+      = graphOfKnn T tol minScale target lcIdx lcFrac nIter r
+        (usedTable (validatePrecomputedKnn false k k rows n force) (takeCols k idx))
+        (usedTable (validatePrecomputedKnn false k k rows n force) (takeCols k ds)) := by
+  rw [graph_depends_on_prefix T tol minScale target lcIdx lcFrac nIter r cols k rows n force hk hr,
+    graph_depends_on_prefix T tol minScale target lcIdx lcFrac nIter r k k rows n force (le_refl k) hr,
+    takeCols_idem, takeCols_idem]
+
+end
+
+/-- non-vacuity: a 3-column table, `n_neighbors = 2`, 3 rows: the decision is `.use 2 true` and
+    the used table is the 2-column prefix. -/
+example : validatePrecomputedKnn false 3 2 3 3 false = .use 2 true := by decide
+example : usedTable (validatePrecomputedKnn false 3 2 3 3 false)
+    [[some 0, some 1, some 2], [some 1, some 0, none], [some 2, some 0, some 1]]
+    = [[some 0, some 1], [some 1, some 0], [some 2, some 0]] := by decide
 
 end C20
 end Umap
